@@ -1,5 +1,5 @@
 import Solvor.Ds.FenwickTheorems
 import Solvor.Ds.UFTheorems
 /-! Ds: the property theorems of C20 are `fenwick_refines`, `fenwick_refines_zeros`
-(FenwickTheorems.lean) and `uf_refines`, `qf_count_is_classes`, `qf_union_classes`
+(plus the state-level `fenwick_updates_eq_rebuild`, `fenwick_history_independent`; FenwickTheorems.lean) and `uf_refines`, `qf_count_is_classes`, `qf_union_classes`
 (UFTheorems.lean). -/
